@@ -431,6 +431,16 @@ func (r *run) convert(cur *node, v Value, from, to types.Type) Value {
 			ln := r.uf("len.of$"+typeKey(to), r.idx(), sv.T)
 			r.assume(c.True(), r.sle(r.idxConst(0), ln))
 			r.assume(c.True(), r.sle(ln, r.idxConst(1<<40)))
+			// []rune(s) decodes s faithfully (no byte replaced by U+FFFD) exactly when s is valid UTF-8.
+			// The link is stated only when a contract file declares the two predicates:
+			//   u8_valid_str(Str) Bool   and   u8_faithful((Array idx rune) idx idx) Bool
+			if b, ok := st.Elem().Underlying().(*types.Basic); ok && b.Kind() == types.Int32 {
+				fv, ff := c.Funs["u8_valid_str"], c.Funs["u8_faithful"]
+				if fv != nil && ff != nil && len(fv.Args) == 1 && fv.Args[0] == StrSort && len(ff.Args) == 3 &&
+					ff.Args[0] == content.Sort && ff.Args[1] == r.idx() && ff.Args[2] == r.idx() {
+					r.assume(c.True(), c.Eq(c.App("u8_faithful", content, r.idxConst(0), ln), c.App("u8_valid_str", sv.T)))
+				}
+			}
 			return SliceV{Base: base, Off: r.idxConst(0), Len: ln, Cap: ln}
 		}
 	}
@@ -1256,9 +1266,11 @@ func (fr *frame) runInvariantLoop(l *loop, spec *contract.LoopSpec, iter []int) 
 	var cells map[string][]cellWrite
 	var whole map[string]bool
 	mark := 0
+	var dryAlloc *smt.Term
 	if len(spec.Modifies) == 0 {
 		var w2 map[string]bool
 		w2, cells, whole, mark = fr.dryRunLoop2(l, it, pre, phis, written)
+		dryAlloc = r.dryAllocVar
 		for n := range w2 {
 			if !written[n] {
 				written[n] = true
@@ -1307,6 +1319,40 @@ func (fr *frame) runInvariantLoop(l *loop, spec *contract.LoopSpec, iter []int) 
 					h = rec(h, 0)
 				}
 				hdr.pv[n] = h
+				continue
+			}
+		}
+		if cw := cells[n]; len(cw) > 0 && !whole[n] && old.Kind == smt.KArray && old.Idx == smt.Int {
+			// Every write goes to an object whose reference is either loop-invariant or allocated inside the
+			// loop body: the heap is havocked, but keeps its value at every other reference that existed
+			// before the loop (a frame the body guarantees by construction).
+			okRefs := true
+			var invRefs []*smt.Term
+			seenRef := map[*smt.Term]bool{}
+			for _, w := range cw {
+				ref := w.idxs[0]
+				switch {
+				case loopInvariantTerm(ref, mark):
+					if !seenRef[ref] {
+						seenRef[ref] = true
+						invRefs = append(invRefs, ref)
+					}
+				case freshInLoop(ref, dryAlloc):
+				default:
+					okRefs = false
+				}
+			}
+			if okRefs && len(invRefs) <= 4 {
+				fresh := c.Fresh(n+".loop", old)
+				hdr.pv[n] = fresh
+				bv := c.BoundVar("r", smt.Int)
+				conds := []*smt.Term{c.Op("<", nil, bv, pre.getPV("$alloc", smt.Int))}
+				for _, ir := range invRefs {
+					conds = append(conds, c.Not(c.Eq(bv, ir)))
+				}
+				r.assume(pre.alive, c.Forall([]*smt.Term{bv},
+					c.Implies(c.And(conds...), c.Eq(c.Select(fresh, bv), c.Select(pre.getPV(n, old), bv))),
+					[]*smt.Term{c.Select(fresh, bv)}))
 				continue
 			}
 		}
@@ -1413,9 +1459,13 @@ func (fr *frame) dryRunLoop2(l *loop, it []int, pre *node, phis []*ssa.Phi, havo
 	hdr.preds = []*edge{{from: pre, cond: pre.alive}}
 	hdr.guard = pre.alive
 	hdr.alive = pre.alive
+	r.dryAllocVar = nil
 	for n := range havoc {
 		if s := pre.pvSortOf(n); s != nil {
 			hdr.pv[n] = c.Fresh(n+".dry", s)
+			if n == "$alloc" {
+				r.dryAllocVar = hdr.pv[n]
+			}
 		}
 	}
 	for _, p := range phis {
@@ -1450,6 +1500,25 @@ func (fr *frame) dryRunLoop2(l *loop, it []int, pre *node, phis []*ssa.Phi, havo
 		}
 	}
 	return w, r.cellLog, r.wholeLog, mark
+}
+
+// freshInLoop: ref is the reference of an object allocated during the current iteration of the loop whose
+// second dry run started with allocation counter dryAlloc (ref == dryAlloc + k, k >= 0 a constant).
+func freshInLoop(ref, dryAlloc *smt.Term) bool {
+	if dryAlloc == nil {
+		return false
+	}
+	if ref == dryAlloc {
+		return true
+	}
+	if ref.Op == "+" && len(ref.Args) == 2 {
+		a, b := ref.Args[0], ref.Args[1]
+		if b == dryAlloc {
+			a, b = b, a
+		}
+		return a == dryAlloc && b.IsConst() && b.Val.Sign() >= 0
+	}
+	return false
 }
 
 // loopInvariantTerm: t mentions no variable created at or after mark (so it denotes the same value at
